@@ -8,8 +8,7 @@ use daachorse::charwise::verif as cv;
 use daachorse::{CharwiseDoubleArrayAhoCorasick, DoubleArrayAhoCorasick, Match, MatchKind};
 
 crate::lookup! {
-    bw_u8, bw_u16, bw_u32, bw_u64, bw_u128, bw_i8, bw_i16, bw_i32, bw_i64, bw_i128, bw_usize, bw_isize, bw_empty,
-    cw_u8, cw_u16, cw_u32, cw_u64, cw_u128, cw_i8, cw_i16, cw_i32, cw_i64, cw_i128, cw_usize, cw_isize, cw_empty,
+    bw_u8, bw_u16, bw_u32, bw_u64, bw_u128, bw_i8, bw_i16, bw_i32, bw_i64, bw_i128, bw_usize, bw_isize, bw_empty, bw_u8_find, bw_u8_nosuf, bw_u8_lm, bw_u8_lf, bw_u128_find, bw_u128_nosuf, bw_u128_lm, bw_u128_lf, bw_empty_find, bw_empty_nosuf, bw_empty_lm, bw_empty_lf, cw_u8, cw_u16, cw_u32, cw_u64, cw_u128, cw_i8, cw_i16, cw_i32, cw_i64, cw_i128, cw_usize, cw_isize, cw_empty, cw_u8_find, cw_u8_nosuf, cw_u8_lm, cw_u8_lf, cw_u128_find, cw_u128_nosuf, cw_u128_lm, cw_u128_lf, cw_empty_find, cw_empty_nosuf, cw_empty_lm, cw_empty_lf,
 }
 
 fn bw_table<V: Copy>(val: V, kind: MatchKind) -> DoubleArrayAhoCorasick<V> {
@@ -55,8 +54,10 @@ macro_rules! check_seq {
     }};
 }
 
-macro_rules! bw_val {
-    ($name:ident, $t:ty, $eq:expr, $any:expr) => {
+// One harness per (variant, value type, search method): each is a distinct instantiation of the
+// generic iterator code.  `ovl` exists for every type; the other methods for u8, u128 and Empty.
+macro_rules! val_harness {
+    (bw, $name:ident, $t:ty, $eq:expr, $any:expr, $kind:expr, $call:ident) => {
         // any() order: val, h: [u8; 2], len
         #[cfg_attr(kani, kani::proof)]
         #[cfg_attr(kani, kani::unwind(5))]
@@ -66,26 +67,14 @@ macro_rules! bw_val {
             let len: usize = kani::any();
             kani::assume(len <= 2 && h[0] < 4 && h[1] < 4);
             let hs = &h[..len];
-            let pma = bw_table::<$t>(val, MatchKind::Standard);
-            check_seq!(pma.find_overlapping_iter(hs), h, len, val, $eq, |b: u8| b == 1);
-            check_seq!(pma.find_iter(hs), h, len, val, $eq, |b: u8| b == 1);
-            check_seq!(pma.find_overlapping_no_suffix_iter(hs), h, len, val, $eq, |b: u8| b == 1);
-            check_seq!(pma.find_iter_from_iter(hs.iter().copied()), h, len, val, $eq, |b: u8| b == 1);
-            let lm = bw_table::<$t>(val, MatchKind::LeftmostLongest);
-            check_seq!(lm.leftmost_find_iter(hs), h, len, val, $eq, |b: u8| b == 1);
-            let lf = bw_table::<$t>(val, MatchKind::LeftmostFirst);
-            check_seq!(lf.leftmost_find_iter(hs), h, len, val, $eq, |b: u8| b == 1);
+            let pma = bw_table::<$t>(val, $kind);
+            check_seq!(pma.$call(hs), h, len, val, $eq, |b: u8| b == 1);
             kani::cover!(len == 2 && h[0] == 1 && h[1] == 1, "U-val: two matches");
             core::mem::forget(pma);
-            core::mem::forget(lm);
-            core::mem::forget(lf);
         }
     };
-}
-
-macro_rules! cw_val {
-    ($name:ident, $t:ty, $eq:expr, $any:expr) => {
-        // any() order: val, h: [u8; 2], len    (ASCII text: chars U+0000..U+0003)
+    (cw, $name:ident, $t:ty, $eq:expr, $any:expr, $kind:expr, $call:ident) => {
+        // any() order: val, h: [u8; 2], len    (ASCII text)
         #[cfg_attr(kani, kani::proof)]
         #[cfg_attr(kani, kani::unwind(5))]
         pub fn $name() {
@@ -94,36 +83,60 @@ macro_rules! cw_val {
             let len: usize = kani::any();
             kani::assume(len <= 2 && h[0] < 0x80 && h[1] < 0x80);
             let hs = unsafe { core::str::from_utf8_unchecked(&h[..len]) };
-            let pma = cw_table::<$t>(val, MatchKind::Standard);
-            check_seq!(pma.find_overlapping_iter(hs), h, len, val, $eq, |b: u8| b == 1);
-            check_seq!(pma.find_iter(hs), h, len, val, $eq, |b: u8| b == 1);
-            check_seq!(pma.find_overlapping_no_suffix_iter(hs), h, len, val, $eq, |b: u8| b == 1);
-            let lm = cw_table::<$t>(val, MatchKind::LeftmostLongest);
-            check_seq!(lm.leftmost_find_iter(hs), h, len, val, $eq, |b: u8| b == 1);
+            let pma = cw_table::<$t>(val, $kind);
+            check_seq!(pma.$call(hs), h, len, val, $eq, |b: u8| b == 1);
             kani::cover!(len == 2 && h[0] == 1 && h[1] == 1, "U-val: two matches");
             core::mem::forget(pma);
-            core::mem::forget(lm);
         }
     };
 }
-
-macro_rules! both {
-    ($bw:ident, $cw:ident, $t:ty) => {
-        bw_val!($bw, $t, |a: $t, b: $t| a == b, kani::any());
-        cw_val!($cw, $t, |a: $t, b: $t| a == b, kani::any());
-    };
-}
-both!(bw_u8, cw_u8, u8);
-both!(bw_u16, cw_u16, u16);
-both!(bw_u32, cw_u32, u32);
-both!(bw_u64, cw_u64, u64);
-both!(bw_u128, cw_u128, u128);
-both!(bw_i8, cw_i8, i8);
-both!(bw_i16, cw_i16, i16);
-both!(bw_i32, cw_i32, i32);
-both!(bw_i64, cw_i64, i64);
-both!(bw_i128, cw_i128, i128);
-both!(bw_usize, cw_usize, usize);
-both!(bw_isize, cw_isize, isize);
-bw_val!(bw_empty, daachorse::Empty, |_a: daachorse::Empty, _b: daachorse::Empty| true, daachorse::Empty);
-cw_val!(cw_empty, daachorse::Empty, |_a: daachorse::Empty, _b: daachorse::Empty| true, daachorse::Empty);
+val_harness!(bw, bw_u8, u8, |a: u8, b: u8| a == b, kani::any(), MatchKind::Standard, find_overlapping_iter);
+val_harness!(bw, bw_u16, u16, |a: u16, b: u16| a == b, kani::any(), MatchKind::Standard, find_overlapping_iter);
+val_harness!(bw, bw_u32, u32, |a: u32, b: u32| a == b, kani::any(), MatchKind::Standard, find_overlapping_iter);
+val_harness!(bw, bw_u64, u64, |a: u64, b: u64| a == b, kani::any(), MatchKind::Standard, find_overlapping_iter);
+val_harness!(bw, bw_u128, u128, |a: u128, b: u128| a == b, kani::any(), MatchKind::Standard, find_overlapping_iter);
+val_harness!(bw, bw_i8, i8, |a: i8, b: i8| a == b, kani::any(), MatchKind::Standard, find_overlapping_iter);
+val_harness!(bw, bw_i16, i16, |a: i16, b: i16| a == b, kani::any(), MatchKind::Standard, find_overlapping_iter);
+val_harness!(bw, bw_i32, i32, |a: i32, b: i32| a == b, kani::any(), MatchKind::Standard, find_overlapping_iter);
+val_harness!(bw, bw_i64, i64, |a: i64, b: i64| a == b, kani::any(), MatchKind::Standard, find_overlapping_iter);
+val_harness!(bw, bw_i128, i128, |a: i128, b: i128| a == b, kani::any(), MatchKind::Standard, find_overlapping_iter);
+val_harness!(bw, bw_usize, usize, |a: usize, b: usize| a == b, kani::any(), MatchKind::Standard, find_overlapping_iter);
+val_harness!(bw, bw_isize, isize, |a: isize, b: isize| a == b, kani::any(), MatchKind::Standard, find_overlapping_iter);
+val_harness!(bw, bw_empty, daachorse::Empty, |_a: daachorse::Empty, _b: daachorse::Empty| true, daachorse::Empty, MatchKind::Standard, find_overlapping_iter);
+val_harness!(bw, bw_u8_find, u8, |a: u8, b: u8| a == b, kani::any(), MatchKind::Standard, find_iter);
+val_harness!(bw, bw_u8_nosuf, u8, |a: u8, b: u8| a == b, kani::any(), MatchKind::Standard, find_overlapping_no_suffix_iter);
+val_harness!(bw, bw_u8_lm, u8, |a: u8, b: u8| a == b, kani::any(), MatchKind::LeftmostLongest, leftmost_find_iter);
+val_harness!(bw, bw_u8_lf, u8, |a: u8, b: u8| a == b, kani::any(), MatchKind::LeftmostFirst, leftmost_find_iter);
+val_harness!(bw, bw_u128_find, u128, |a: u128, b: u128| a == b, kani::any(), MatchKind::Standard, find_iter);
+val_harness!(bw, bw_u128_nosuf, u128, |a: u128, b: u128| a == b, kani::any(), MatchKind::Standard, find_overlapping_no_suffix_iter);
+val_harness!(bw, bw_u128_lm, u128, |a: u128, b: u128| a == b, kani::any(), MatchKind::LeftmostLongest, leftmost_find_iter);
+val_harness!(bw, bw_u128_lf, u128, |a: u128, b: u128| a == b, kani::any(), MatchKind::LeftmostFirst, leftmost_find_iter);
+val_harness!(bw, bw_empty_find, daachorse::Empty, |_a: daachorse::Empty, _b: daachorse::Empty| true, daachorse::Empty, MatchKind::Standard, find_iter);
+val_harness!(bw, bw_empty_nosuf, daachorse::Empty, |_a: daachorse::Empty, _b: daachorse::Empty| true, daachorse::Empty, MatchKind::Standard, find_overlapping_no_suffix_iter);
+val_harness!(bw, bw_empty_lm, daachorse::Empty, |_a: daachorse::Empty, _b: daachorse::Empty| true, daachorse::Empty, MatchKind::LeftmostLongest, leftmost_find_iter);
+val_harness!(bw, bw_empty_lf, daachorse::Empty, |_a: daachorse::Empty, _b: daachorse::Empty| true, daachorse::Empty, MatchKind::LeftmostFirst, leftmost_find_iter);
+val_harness!(cw, cw_u8, u8, |a: u8, b: u8| a == b, kani::any(), MatchKind::Standard, find_overlapping_iter);
+val_harness!(cw, cw_u16, u16, |a: u16, b: u16| a == b, kani::any(), MatchKind::Standard, find_overlapping_iter);
+val_harness!(cw, cw_u32, u32, |a: u32, b: u32| a == b, kani::any(), MatchKind::Standard, find_overlapping_iter);
+val_harness!(cw, cw_u64, u64, |a: u64, b: u64| a == b, kani::any(), MatchKind::Standard, find_overlapping_iter);
+val_harness!(cw, cw_u128, u128, |a: u128, b: u128| a == b, kani::any(), MatchKind::Standard, find_overlapping_iter);
+val_harness!(cw, cw_i8, i8, |a: i8, b: i8| a == b, kani::any(), MatchKind::Standard, find_overlapping_iter);
+val_harness!(cw, cw_i16, i16, |a: i16, b: i16| a == b, kani::any(), MatchKind::Standard, find_overlapping_iter);
+val_harness!(cw, cw_i32, i32, |a: i32, b: i32| a == b, kani::any(), MatchKind::Standard, find_overlapping_iter);
+val_harness!(cw, cw_i64, i64, |a: i64, b: i64| a == b, kani::any(), MatchKind::Standard, find_overlapping_iter);
+val_harness!(cw, cw_i128, i128, |a: i128, b: i128| a == b, kani::any(), MatchKind::Standard, find_overlapping_iter);
+val_harness!(cw, cw_usize, usize, |a: usize, b: usize| a == b, kani::any(), MatchKind::Standard, find_overlapping_iter);
+val_harness!(cw, cw_isize, isize, |a: isize, b: isize| a == b, kani::any(), MatchKind::Standard, find_overlapping_iter);
+val_harness!(cw, cw_empty, daachorse::Empty, |_a: daachorse::Empty, _b: daachorse::Empty| true, daachorse::Empty, MatchKind::Standard, find_overlapping_iter);
+val_harness!(cw, cw_u8_find, u8, |a: u8, b: u8| a == b, kani::any(), MatchKind::Standard, find_iter);
+val_harness!(cw, cw_u8_nosuf, u8, |a: u8, b: u8| a == b, kani::any(), MatchKind::Standard, find_overlapping_no_suffix_iter);
+val_harness!(cw, cw_u8_lm, u8, |a: u8, b: u8| a == b, kani::any(), MatchKind::LeftmostLongest, leftmost_find_iter);
+val_harness!(cw, cw_u8_lf, u8, |a: u8, b: u8| a == b, kani::any(), MatchKind::LeftmostFirst, leftmost_find_iter);
+val_harness!(cw, cw_u128_find, u128, |a: u128, b: u128| a == b, kani::any(), MatchKind::Standard, find_iter);
+val_harness!(cw, cw_u128_nosuf, u128, |a: u128, b: u128| a == b, kani::any(), MatchKind::Standard, find_overlapping_no_suffix_iter);
+val_harness!(cw, cw_u128_lm, u128, |a: u128, b: u128| a == b, kani::any(), MatchKind::LeftmostLongest, leftmost_find_iter);
+val_harness!(cw, cw_u128_lf, u128, |a: u128, b: u128| a == b, kani::any(), MatchKind::LeftmostFirst, leftmost_find_iter);
+val_harness!(cw, cw_empty_find, daachorse::Empty, |_a: daachorse::Empty, _b: daachorse::Empty| true, daachorse::Empty, MatchKind::Standard, find_iter);
+val_harness!(cw, cw_empty_nosuf, daachorse::Empty, |_a: daachorse::Empty, _b: daachorse::Empty| true, daachorse::Empty, MatchKind::Standard, find_overlapping_no_suffix_iter);
+val_harness!(cw, cw_empty_lm, daachorse::Empty, |_a: daachorse::Empty, _b: daachorse::Empty| true, daachorse::Empty, MatchKind::LeftmostLongest, leftmost_find_iter);
+val_harness!(cw, cw_empty_lf, daachorse::Empty, |_a: daachorse::Empty, _b: daachorse::Empty| true, daachorse::Empty, MatchKind::LeftmostFirst, leftmost_find_iter);
